@@ -61,6 +61,11 @@ theorem St.setCell_lookup_other (s : St) (k k' : Key) (c : Cell) (h : k' ≠ k) 
 
 /-! ## A generic induction over `eval` -/
 
+/-- the cell `get_or_insert` creates (`add_any`) -/
+def insertedCell (env : Env) (key : Key) (v : Val) (addr : Nat) : Cell :=
+  { val := v, dyn := insertedEntryDynamic (env.types key.ty).hot env.hasReloader,
+    rid := ReloadId_NEVER, flag := false, addr := addr }
+
 /-- Relations between the state before and after an evaluation that `eval` establishes. -/
 structure MapRel (env : Env) (R : St → St → Prop) : Prop where
   refl : ∀ s, R s s
@@ -69,6 +74,8 @@ structure MapRel (env : Env) (R : St → St → Prop) : Prop where
   congr : ∀ {s t s' t' : St}, s'.map = s.map → t'.map = t.map → R s t → R s' t'
   /-- the insertion (keep-first) of a freshly loaded cell -/
   ins : ∀ (s : St) (key : Key) (v : Val) (addr : Nat), R s (s.insertKeepFirst key (newCell env key.ty v addr)).1
+  /-- the insertion (keep-first) of a cell handed to `get_or_insert` (by a loader) -/
+  insAny : ∀ (s : St) (key : Key) (v : Val) (addr : Nat), R s (s.insertKeepFirst key (insertedCell env key v addr)).1
 
 namespace MapRel
 variable {env : Env} {R : St → St → Prop}
@@ -134,6 +141,17 @@ theorem eval_rel (h : MapRel env R) : ∀ f s p, R s (eval env f s p).1 := by
     | getCached key k =>
       simp only [eval]
       exact h.trans (h.of_map_eq (by simp)) (ih _ _)
+    | getOrInsert key v k =>
+      simp only [eval]
+      refine h.trans (b := s.record (recordsAsset (env.types key.ty).hot env.hasReloader) (.asset key))
+        (h.of_map_eq (by simp)) ?_
+      generalize s.record _ _ = s'
+      cases hl : s'.lookup key with
+      | some c => simp only []; exact h.trans (b := s'.handOut key.ty) (h.of_map_eq rfl) (ih _ _)
+      | none =>
+        simp only []
+        refine h.trans ?_ (ih _ _)
+        exact h.trans (h.insAny s' key v s'.next) (h.of_map_eq rfl)
     | tick k =>
       simp only [eval]
       exact h.trans (b := { s with loads := s.loads + 1 }) (h.of_map_eq rfl) (ih _ _)
@@ -216,8 +234,10 @@ theorem Added.trans {P} {a b c : St} (h1 : Added P a b) (h2 : Added P b c) : Add
 theorem Added.of_map_eq {P} {s t : St} (e : t.map = s.map) : Added P s t := by
   intro k c h; left; rw [← St.lookup_congr e k]; exact h
 
-/-- `P` holds of every cell a load creates under `env`. -/
-def NewCellsSat (env : Env) (P : Key → Cell → Prop) : Prop := ∀ key v addr, P key (newCell env key.ty v addr)
+/-- `P` holds of every cell an evaluation creates under `env`: by a load (`newCell`) or by a loader's
+`get_or_insert` (`insertedCell`). -/
+def NewCellsSat (env : Env) (P : Key → Cell → Prop) : Prop :=
+  (∀ key v addr, P key (newCell env key.ty v addr)) ∧ ∀ key v addr, P key (insertedCell env key v addr)
 
 /-- keep-first insertion of a cell satisfying `P` -/
 theorem Added.ins_cell {P : Key → Cell → Prop} (s : St) (key : Key) (c0 : Cell) (h0 : P key c0) :
@@ -252,7 +272,8 @@ theorem Added.mapRel {env : Env} {P : Key → Cell → Prop} (hP : NewCellsSat e
   refl := Added.refl P
   trans := Added.trans
   congr := Added.congr
-  ins := fun s key v addr => Added.ins_cell s key _ (hP key v addr)
+  ins := fun s key v addr => Added.ins_cell s key _ (hP.1 key v addr)
+  insAny := fun s key v addr => Added.ins_cell s key _ (hP.2 key v addr)
 
 theorem St.Le.mapRel (env : Env) : MapRel env St.Le where
   refl := St.Le.refl
@@ -263,8 +284,9 @@ theorem St.Le.mapRel (env : Env) : MapRel env St.Le where
     rw [St.lookup_congr ht k]
     exact h k c hc
   ins := fun s key _ _ => St.insertKeepFirst_le s key _
+  insAny := fun s key _ _ => St.insertKeepFirst_le s key _
 
-/-- Whatever an evaluation adds to the cache was created by `newCell` under this `env`. -/
+/-- Whatever an evaluation adds to the cache was created by `newCell` or `insertedCell` under this `env`. -/
 theorem eval_added (env : Env) (P) (hP : NewCellsSat env P) (f : Nat) (s : St) (p : Prog) : Added P s (eval env f s p).1 :=
   (Added.mapRel hP).eval_rel f s p
 
@@ -531,7 +553,7 @@ def St.ridOf (s : St) (k : Key) : Nat :=
   | some c => c.rid
   | none => ReloadId_NEVER
 
-theorem newCells_never (env : Env) : NewCellsSat env (fun _ c => c.rid = ReloadId_NEVER) := fun _ _ _ => rfl
+theorem newCells_never (env : Env) : NewCellsSat env (fun _ c => c.rid = ReloadId_NEVER) := ⟨fun _ _ _ => rfl, fun _ _ _ => rfl⟩
 
 theorem reloadUntyped_ridOf_le (env : Env) (fuel : Nat) (s : St) (key : Key) (k : Key) (c' : Cell)
     (h : (reloadUntyped env fuel s key).1.lookup k = some c') : c'.rid ≤ s.ridOf k + 1 := by
@@ -685,14 +707,9 @@ theorem enhance_ev (env : Env) (fuel : Nat) (s : St) (r : RSt) : s.Ev (enhance e
 
 /-! ## API operations -/
 
-/-- the cell `get_or_insert` creates (`add_any`) -/
-def insertedCell (env : Env) (key : Key) (v : Val) (addr : Nat) : Cell :=
-  { val := v, dyn := insertedEntryDynamic (env.types key.ty).hot env.hasReloader,
-    rid := ReloadId_NEVER, flag := false, addr := addr }
-
-/-- `P` holds of every cell an API operation creates under `env` (by a load or by `get_or_insert`). -/
-def EnvCellsSat (env : Env) (P : Key → Cell → Prop) : Prop :=
-  NewCellsSat env P ∧ ∀ key v addr, P key (insertedCell env key v addr)
+/-- `P` holds of every cell an API operation creates under `env` (by a load or by `get_or_insert`):
+the same as `NewCellsSat` now that loaders may call `get_or_insert` themselves. -/
+abbrev EnvCellsSat (env : Env) (P : Key → Cell → Prop) : Prop := NewCellsSat env P
 
 theorem MapRel.evalTop_rel {env : Env} {R : St → St → Prop} (h : MapRel env R) (fuel : Nat) (s : St) (p : Prog) :
     R s (evalTop env fuel s p).1 := by
@@ -767,8 +784,8 @@ by this operation. -/
 theorem step_added (env : Env) (fuel : Nat) (s : St) (op : Op) (P) (hP : EnvCellsSat env P) :
     Added P s (step env fuel s op).1 := by
   cases op with
-  | load key => rw [step_load_fst]; exact (Added.mapRel hP.1).evalTop_rel fuel s _
-  | loadOwned key => rw [step_loadOwned_fst]; exact (Added.mapRel hP.1).evalTop_rel fuel s _
+  | load key => rw [step_load_fst]; exact (Added.mapRel hP).evalTop_rel fuel s _
+  | loadOwned key => rw [step_loadOwned_fst]; exact (Added.mapRel hP).evalTop_rel fuel s _
   | getCached key => exact Added.refl P s
   | contains key => exact Added.refl P s
   | getOrInsert key v =>
@@ -856,9 +873,9 @@ theorem hstep_all (fuel : Nat) (e : Env × HOp) (x : St × RSt) (I) (hw : WriteS
   obtain ⟨s, r⟩ := x
   cases op with
   | api op => exact step_all env fuel s op I hP hs
-  | notify evs => exact (allRel_passRel env fuel I hw hP.1).handleEvents_rel s r evs hs
-  | hotReload => exact (allRel_passRel env fuel I hw hP.1).hotReload_rel s r hs
-  | enhance => exact (allRel_passRel env fuel I hw hP.1).enhance_rel s r hs
+  | notify evs => exact (allRel_passRel env fuel I hw hP).handleEvents_rel s r evs hs
+  | hotReload => exact (allRel_passRel env fuel I hw hP).hotReload_rel s r hs
+  | enhance => exact (allRel_passRel env fuel I hw hP).enhance_rel s r hs
 
 theorem runH_all (fuel : Nat) (I) (hw : WriteStable I) (h : List (Env × HOp)) (x : St × RSt)
     (hP : ∀ e ∈ h, EnvCellsSat e.1 I) (hs : x.1.All I) : (runH fuel h x).1.All I := by
